@@ -1378,11 +1378,19 @@ func (m *RadioTap) DecodeFromBytes(data []byte, df gopacket.DecodeFeedback) erro
 	vendorNamespace := false
 	for _, present := range m.Present {
 		if radioTapNamespace {
-			rValues, newOffset := RadioTapNamespace{}.decodeRadioTapNamespace(data, offset, present)
+			rValues, newOffset, err := RadioTapNamespace{}.decodeRadioTapNamespace(data, offset, present)
+			if err != nil {
+				df.SetTruncated()
+				return err
+			}
 			m.RadioTapValues = append(m.RadioTapValues, rValues)
 			offset = newOffset
 		} else if vendorNamespace {
-			vValues, newOffset := VendorNamespace{}.decodeVendorNamespace(data, offset, present)
+			vValues, newOffset, err := VendorNamespace{}.decodeVendorNamespace(data, offset, present)
+			if err != nil {
+				df.SetTruncated()
+				return err
+			}
 			m.VendorValues = append(m.VendorValues, vValues)
 			offset = newOffset
 		} else {
@@ -1403,7 +1411,7 @@ func (m *RadioTap) DecodeFromBytes(data []byte, df gopacket.DecodeFeedback) erro
 	payload := data[m.Length:]
 
 	// Remove non standard padding used by some Wi-Fi drivers
-	if m.RadioTapValues[0].Flags.Datapad() &&
+	if m.RadioTapValues[0].Flags.Datapad() && len(payload) >= 2 &&
 		payload[0]&0xC == 0x8 { //&& // Data frame
 		headlen := 24
 		if payload[0]&0x8C == 0x88 { // QoS
@@ -1412,7 +1420,7 @@ func (m *RadioTap) DecodeFromBytes(data []byte, df gopacket.DecodeFeedback) erro
 		if payload[1]&0x3 == 0x3 { // 4 addresses
 			headlen += 2
 		}
-		if headlen%4 == 2 {
+		if headlen%4 == 2 && len(payload) >= headlen+2 {
 			payload = append(payload[:headlen], payload[headlen+2:len(payload)]...)
 		}
 	}
@@ -1437,89 +1445,148 @@ func (m *RadioTap) DecodeFromBytes(data []byte, df gopacket.DecodeFeedback) erro
 	return nil
 }
 
-func (m RadioTapNamespace) decodeRadioTapNamespace(data []byte, offset uint16, present RadioTapPresent) (RadioTapNamespace, uint16) {
+var errRadioTapShort = errors.New("RadioTap field extends beyond data")
+
+func (m RadioTapNamespace) decodeRadioTapNamespace(data []byte, offset uint16, present RadioTapPresent) (RadioTapNamespace, uint16, error) {
 	if present.TSFT() {
 		offset += align(offset, 8)
+		if int(offset)+8 > len(data) {
+			return m, offset, errRadioTapShort
+		}
 		m.TSFT = binary.LittleEndian.Uint64(data[offset : offset+8])
 		offset += 8
 	}
 	if present.Flags() {
+		if int(offset)+1 > len(data) {
+			return m, offset, errRadioTapShort
+		}
 		m.Flags = RadioTapFlags(data[offset])
 		offset++
 	}
 	if present.Rate() {
+		if int(offset)+1 > len(data) {
+			return m, offset, errRadioTapShort
+		}
 		m.Rate = RadioTapRate(data[offset])
 		offset++
 	}
 	if present.Channel() {
 		offset += align(offset, 2)
+		if int(offset)+4 > len(data) {
+			return m, offset, errRadioTapShort
+		}
 		m.ChannelFrequency = RadioTapChannelFrequency(binary.LittleEndian.Uint16(data[offset : offset+2]))
 		offset += 2
 		m.ChannelFlags = RadioTapChannelFlags(binary.LittleEndian.Uint16(data[offset : offset+2]))
 		offset += 2
 	}
 	if present.FHSS() {
+		if int(offset)+2 > len(data) {
+			return m, offset, errRadioTapShort
+		}
 		m.FHSS = binary.LittleEndian.Uint16(data[offset : offset+2])
 		offset += 2
 	}
 	if present.DBMAntennaSignal() {
+		if int(offset)+1 > len(data) {
+			return m, offset, errRadioTapShort
+		}
 		m.DBMAntennaSignal = int8(data[offset])
 		offset++
 	}
 	if present.DBMAntennaNoise() {
+		if int(offset)+1 > len(data) {
+			return m, offset, errRadioTapShort
+		}
 		m.DBMAntennaNoise = int8(data[offset])
 		offset++
 	}
 	if present.LockQuality() {
 		offset += align(offset, 2)
+		if int(offset)+2 > len(data) {
+			return m, offset, errRadioTapShort
+		}
 		m.LockQuality = binary.LittleEndian.Uint16(data[offset : offset+2])
 		offset += 2
 	}
 	if present.TxAttenuation() {
 		offset += align(offset, 2)
+		if int(offset)+2 > len(data) {
+			return m, offset, errRadioTapShort
+		}
 		m.TxAttenuation = binary.LittleEndian.Uint16(data[offset : offset+2])
 		offset += 2
 	}
 	if present.DBTxAttenuation() {
 		offset += align(offset, 2)
+		if int(offset)+2 > len(data) {
+			return m, offset, errRadioTapShort
+		}
 		m.DBTxAttenuation = binary.LittleEndian.Uint16(data[offset : offset+2])
 		offset += 2
 	}
 	if present.DBMTxPower() {
+		if int(offset)+1 > len(data) {
+			return m, offset, errRadioTapShort
+		}
 		m.DBMTxPower = int8(data[offset])
 		offset++
 	}
 	if present.Antenna() {
+		if int(offset)+1 > len(data) {
+			return m, offset, errRadioTapShort
+		}
 		m.Antenna = uint8(data[offset])
 		offset++
 	}
 	if present.DBAntennaSignal() {
+		if int(offset)+1 > len(data) {
+			return m, offset, errRadioTapShort
+		}
 		m.DBAntennaSignal = uint8(data[offset])
 		offset++
 	}
 	if present.DBAntennaNoise() {
+		if int(offset)+1 > len(data) {
+			return m, offset, errRadioTapShort
+		}
 		m.DBAntennaNoise = uint8(data[offset])
 		offset++
 	}
 	if present.RxFlags() {
 		offset += align(offset, 2)
+		if int(offset)+2 > len(data) {
+			return m, offset, errRadioTapShort
+		}
 		m.RxFlags = RadioTapRxFlags(binary.LittleEndian.Uint16(data[offset:]))
 		offset += 2
 	}
 	if present.TxFlags() {
 		offset += align(offset, 2)
+		if int(offset)+2 > len(data) {
+			return m, offset, errRadioTapShort
+		}
 		m.TxFlags = RadioTapTxFlags(binary.LittleEndian.Uint16(data[offset:]))
 		offset += 2
 	}
 	if present.RtsRetries() {
+		if int(offset)+1 > len(data) {
+			return m, offset, errRadioTapShort
+		}
 		m.RtsRetries = uint8(data[offset])
 		offset++
 	}
 	if present.DataRetries() {
+		if int(offset)+1 > len(data) {
+			return m, offset, errRadioTapShort
+		}
 		m.DataRetries = uint8(data[offset])
 		offset++
 	}
 	if present.MCS() {
+		if int(offset)+3 > len(data) {
+			return m, offset, errRadioTapShort
+		}
 		m.MCS = RadioTapMCS{
 			RadioTapMCSKnown(data[offset]),
 			RadioTapMCSFlags(data[offset+1]),
@@ -1529,6 +1596,9 @@ func (m RadioTapNamespace) decodeRadioTapNamespace(data []byte, offset uint16, p
 	}
 	if present.AMPDUStatus() {
 		offset += align(offset, 4)
+		if int(offset)+8 > len(data) {
+			return m, offset, errRadioTapShort
+		}
 		m.AMPDUStatus = RadioTapAMPDUStatus{
 			Reference: binary.LittleEndian.Uint32(data[offset:]),
 			Flags:     RadioTapAMPDUStatusFlags(binary.LittleEndian.Uint16(data[offset+4:])),
@@ -1538,6 +1608,9 @@ func (m RadioTapNamespace) decodeRadioTapNamespace(data []byte, offset uint16, p
 	}
 	if present.VHT() {
 		offset += align(offset, 2)
+		if int(offset)+12 > len(data) {
+			return m, offset, errRadioTapShort
+		}
 		m.VHT = RadioTapVHT{
 			Known:     RadioTapVHTKnown(binary.LittleEndian.Uint16(data[offset:])),
 			Flags:     RadioTapVHTFlags(data[offset+2]),
@@ -1556,10 +1629,16 @@ func (m RadioTapNamespace) decodeRadioTapNamespace(data []byte, offset uint16, p
 	}
 	if present.Timestamp() {
 		offset += align(offset, 8)
+		if int(offset)+12 > len(data) {
+			return m, offset, errRadioTapShort
+		}
 		offset += 12
 	}
 	if present.HE() {
 		offset += align(offset, 2)
+		if int(offset)+12 > len(data) {
+			return m, offset, errRadioTapShort
+		}
 		m.HE = RadiotapHE{
 			Data1: RadiotapHEData1(binary.LittleEndian.Uint16(data[offset:])),
 			Data2: RadiotapHEData2(binary.LittleEndian.Uint16(data[offset+2:])),
@@ -1571,12 +1650,15 @@ func (m RadioTapNamespace) decodeRadioTapNamespace(data []byte, offset uint16, p
 		offset += 12
 	}
 
-	return m, offset
+	return m, offset, nil
 }
 
-func (v VendorNamespace) decodeVendorNamespace(data []byte, offset uint16, present RadioTapPresent) (VendorNamespace, uint16) {
+func (v VendorNamespace) decodeVendorNamespace(data []byte, offset uint16, present RadioTapPresent) (VendorNamespace, uint16, error) {
 	offset += align(offset, 2)
 
+	if int(offset)+8 > len(data) {
+		return v, offset, errRadioTapShort
+	}
 	v.OUI = data[offset : offset+3]
 	offset += 4
 
@@ -1586,10 +1668,13 @@ func (v VendorNamespace) decodeVendorNamespace(data []byte, offset uint16, prese
 	v.SkipLength = binary.LittleEndian.Uint16(data[offset:])
 	offset += 2
 
+	if int(offset)+int(v.SkipLength) > len(data) {
+		return v, offset, errRadioTapShort
+	}
 	v.Contents = data[offset : offset+v.SkipLength]
 	offset += v.SkipLength
 
-	return v, offset
+	return v, offset, nil
 }
 
 func (m RadioTap) SerializeTo(b gopacket.SerializeBuffer, opts gopacket.SerializeOptions) error {
